@@ -203,6 +203,54 @@ def run(ctx):
                     if ra != want or rb != want or rows_of(v) != want:
                         ctx.spec_fail('cache|rows|two-iterators', 'cache(n=%s): two iterators taking turns do not both yield the wrapped table' % k,
                                       {'table': repr(T), 'n': k, 'turns': pat, 'first': repr(ra), 'second': repr(rb)})
+            # a pass-through view that was copied (copy / deepcopy / pickle round trip) is still a pass-through view
+            import copy as _copy, pickle as _pickle
+            for vname, mk in (('cache', lambda: etl.wrap(T).cache()), ('cache(n=1)', lambda: etl.wrap(T).cache(1)), ('wrap', lambda: etl.wrap(T)),
+                              ('clock', lambda: etl.clock(T))):
+                for warm in (False, True):
+                    for how, dup in (('copy', _copy.copy), ('deepcopy', _copy.deepcopy), ('pickle', lambda v: _pickle.loads(_pickle.dumps(v)))):
+                        try:
+                            v = mk()
+                            if warm:
+                                rows_of(v)
+                            d_ = dup(v)
+                            got = (rows_of(d_), rows_of(v), rows_of(d_))
+                        except Exception as e:   # noqa
+                            got = repr(e)
+                        ctx.case(('copied-view', vname, how, warm, repr(T)) if nt else None)
+                        ctx.count('view:copied')
+                        if got != (want, want, want):
+                            ctx.spec_fail('%s|rows|copied-view' % vname.split('(')[0], '%s (%s, %s) does not yield exactly the rows of the wrapped table'
+                                          % (vname, how + ' of the view', 'after a complete pass' if warm else 'before any pass'),
+                                          {'table': repr(T), 'view': vname, 'duplicate made by': how, 'after a pass': warm, 'rows (copy, original, copy again)': repr(got)})
+            # a tee view read to the end a second time leaves in its target what to* writes, whatever happened to the target meanwhile
+            if ci % 5 == 0:
+                for tname, tee, to in (('teepickle', lambda p: etl.teepickle(T, p), lambda p: etl.topickle(T, p)),
+                                       ('teecsv', lambda p: etl.teecsv(T, p, encoding='utf-8'), lambda p: etl.tocsv(T, p, encoding='utf-8')),
+                                       ('teetext', None, None)):
+                    if tee is None or not all(len(r) > 0 for r in T):
+                        continue
+                    try:
+                        p1, p2 = path(), path()
+                        v = tee(p1)
+                        rows_of(v)
+                        how = rng.choice(['overwrite', 'delete', 'truncate'])
+                        if how == 'overwrite':
+                            etl.totext([['x'], ['junk']], p1, template='{x}')
+                        elif how == 'delete':
+                            os.unlink(p1)
+                        else:
+                            open(p1, 'wb').close()
+                        second = rows_of(v)
+                        to(p2)
+                        same = open(p1, 'rb').read() == open(p2, 'rb').read()
+                    except Exception as e:   # noqa
+                        second, same, how = repr(e), False, 'raised'
+                    ctx.case((tname, 'second-pass', repr(T)) if nt else None)
+                    ctx.count('tee:second-pass')
+                    if second != want or not same:
+                        ctx.spec_fail('%s|second-pass' % tname, '%s read to the end a second time (target %s in between): rows or target not those of %s'
+                                      % (tname, how, tname.replace('tee', 'to')), {'table': repr(T), 'target was': how, 'rows of the second pass': repr(second), 'bytes equal': same})
     finally:
         shutil.rmtree(tmpd, ignore_errors=True)
 
